@@ -33,6 +33,11 @@ def cases(tier, seed):
     for t in range(150 if thorough else 40):
         out.append({'kind': 'prop', 'n': int(rs.randint(2, 17 if thorough else 11)), 'sym': bool(t % 2), 'dens': float(rs.choice([.1, .3, .6, 1.0])),
                     'wk': ['int', 'int2', 'real', 'bin'][t % 4], 'diag': bool(t % 3 == 0), 'ms': int(rs.randint(1 << 30))})
+    for t in range(40 if thorough else 12):  # all weights far below any absolute tolerance
+        out.append({'kind': 'prop', 'n': int(rs.randint(3, 10)), 'sym': bool(t % 2), 'dens': float(rs.choice([.5, 1.0])),
+                    'wk': ['real', 'int'][t % 2], 'diag': False, 'ms': int(rs.randint(1 << 30)), 'scale': 1e-10})
+        out.append({'kind': 'util', 'n': int(rs.randint(3, 10)), 'sym': bool(t % 2), 'dens': 1.0,
+                    'wk': ['signed', 'real'][t % 2], 'diag': False, 'ms': int(rs.randint(1 << 30)), 'scale': 1e-10})
     for n in range(2, 17 if thorough else 13):  # dense supports: the rounding boundary decides the count
         for sym in (False, True):
             for wk in ('real', 'int'):
@@ -67,7 +72,7 @@ def make(case):
         W[np.arange(n), np.arange(n)] = rs.randint(1, 5, size=n)
     else:
         np.fill_diagonal(W, 0)
-    return W
+    return W * case.get('scale', 1.0)
 
 
 def half_up(fr):
